@@ -127,5 +127,17 @@ where
         _ => return Err(ReadActorError::LeaseInvalid),
     }
 
+    #[cfg(feature = "verif-hooks")]
+    d_engine_core::verif::emit(d_engine_core::verif::VerifEvent::ReadServed {
+        node: 0,
+        path: "read_actor",
+        policy: match cmd.consistency {
+            ReadConsistencyPolicy::EventualConsistency => "eventual",
+            ReadConsistencyPolicy::LeaseRead => "lease",
+            _ => "linearizable",
+        },
+        term: 0,
+        lease: Arc::as_ptr(lease) as usize,
+    });
     sm.get_multi(&cmd.keys).map_err(|e| ReadActorError::SmError(e.to_string()))
 }
